@@ -5,9 +5,11 @@ import IprDriver.Util
 Driver for C14.  Ops (one per line):
   kinds                       -> `K <kind> <link:arity,..|-> <accessor,..|->` for every kind of the table
   state <kind> <digits>       -> `<kind> <digits> : acc=<outcome> ...`   outcome: `!L`, `-`, `$link[.part]`, a literal, `*`
-  hist <kind> <l:c,l:c,..>    -> the same line for the state reached from the factory's by the assignments `link l := code c` in order
+  hist <kind> <l:c,l:c,..>    -> the same line for the state reached from the factory's (`State.initial`) by `State.run` of the assignments
+                                 `link l := code c` in order, the i-th installing a fresh target (number i + 1)
   seq <impl> <pattern> [view] -> `size=.. empty=.. get=[..|..] fwd=[..] bwd=[..] end=.. rend=..`
   optional <0|1>              -> `!L` or `e0`  (Optional<T>::get / util::ref<T>::get)
+Every outcome token is `Sem.render`, i.e. a rendering of `Sem.eval` on that state (the definition IprProps/C14.lean is about).
 Sequence patterns: one letter per slot/element — `s` an element, `p` an element whose type() raises, `u` a slot made by the
 sizing constructor / resize, `n` push_back(nullptr).  Elements are numbered in order of creation: `e<k>`, its type `t<k>`.
 -/
@@ -24,8 +26,8 @@ def kindLine (k : KindSpec) : String :=
   let as := if k.rows.isEmpty then "-" else joinWith "," (k.rows.map (·.1))
   s!"K {k.name} {ls} {as}"
 
-def stateLine (k : KindSpec) (ds : String) (codes : List Nat) : String :=
-  let fs := (k.expected codes).map (fun p => s!"{p.1}={p.2}")
+def stateLine (k : KindSpec) (ds : String) (σ : State) : String :=
+  let fs := (k.expected σ).map (fun p => s!"{p.1}={p.2}")
   s!"{k.name} {ds} :" ++ String.join (fs.map (" " ++ ·))
 
 def parseHist (s : String) : Option (List (Nat × Nat)) :=
@@ -35,6 +37,10 @@ def parseHist (s : String) : Option (List (Nat × Nat)) :=
       | some l, some c => some (l, c)
       | _, _ => none
     | _ => none)
+
+/-- A history as the probe applies it: the i-th assignment `link l := code c` installs a fresh target (number `i + 1`). -/
+def numbered (assigns : List (Nat × Nat)) : List (Nat × LinkVal) :=
+  assigns.zipIdx.map (fun p => (p.1.1, { code := p.1.2, target := p.2 + 1 }))
 
 /-! sequences -/
 def showRes (pfx : String) : Res Nat → String
@@ -100,14 +106,15 @@ def step (_ : Unit) : List String → Unit × List String
   | ["state", kind, ds] =>
     match findKind kind, digits ds with
     | some k, some codes =>
-      if codes.length == k.links.length then ((), [stateLine k ds codes]) else ((), [s!"{kind} {ds} : bad-state"])
+      if codes.length == k.links.length then ((), [stateLine k ds (State.ofCodes codes)]) else ((), [s!"{kind} {ds} : bad-state"])
     | none, _ => ((), [s!"{kind} {ds} : unmodelled-kind"])
     | _, _ => ((), [s!"{kind} {ds} : bad-state"])
   | ["hist", kind, h] =>
     match findKind kind, parseHist h with
     | some k, some assigns =>
-      let σ := (State.initial k.links.length).run (assigns.map (fun a => (a.1, { code := a.2, target := 0 })))
-      if assigns.all (fun a => a.1 < k.links.length) then ((), [stateLine k h (σ.map (·.code))]) else ((), [s!"{kind} {h} : bad-state"])
+      -- the i-th assignment of the history sets its link to a fresh target, numbered i + 1
+      let σ := (State.initial k.links.length).run (numbered assigns)
+      if assigns.all (fun a => a.1 < k.links.length) then ((), [stateLine k h σ]) else ((), [s!"{kind} {h} : bad-state"])
     | none, _ => ((), [s!"{kind} {h} : unmodelled-kind"])
     | _, _ => ((), [s!"{kind} {h} : bad-state"])
   | ["seq", impl, pat] => ((), [s!"seq {impl} {pat} : " ++ seqLine impl (if pat == "-" then [] else pat.toList) "decl"])
